@@ -50,6 +50,18 @@ PStartIffAccepted, PStartReturns and the proxy invariants for EVERY vector of ac
 the real search.Ingestor.StartAsyncSearch over its real stores behind scripted replicas for every emitted vector in
 which some shard has no accepting replica and a share of the others: the client must get the id exactly when the
 model says so; an id is followed through FetchAsyncSearchResult until done and must be the synchronous answer.
+(B1l, several persisted requests - AsyncSearchLoader.tla: NR requests in ONE directory, each with its own captured
+fraction list (any subset of the store's fractions) and its own parameter set; the boot path is spelled out file by file
+(LoadBegin / LoadOne / LoadEnd = loadAsyncSearches decoding every <id>.info in glob order, then MustStartAsync's restart of
+the unfinished ones); TLC decides LoaderIsolation (every request resumes over exactly the list and parameters of ITS file,
+which are the ones captured at its start), DoneImpliesOwnFractions, PartialWithinOwn, AcceptedSurvive, NoGhost,
+DoneIsDurable, SearchedOwnOnly, SlotsBounded and AllFinish for 2 and 3 requests over 3 fractions, and must refute "one
+decode target shared by all files") every job replays loader behaviours on its real store: the requests get time ranges
+that select the model's lists (found with the code's own FilterInRange), run to the end on one searcher, the crash image
+(which request is not started / accepted with which partial results / finished) is built from these real files in a second
+directory, MustStartAsync over it must know exactly the persisted requests, resume and finish EVERY one with
+Searcher.SearchDocs over ITS OWN fractions and parameters, write no persisted partial result again, and leave the
+model's directory (per request exactly the partial results of its list).
 (B2) one real request runs under strace; the observed system calls on the
 request's directory must be the model's operation order for every file (incl. both fsyncs)."""
 import hashlib
@@ -561,11 +573,15 @@ def run(ctx):
         "with persisted .qpr files moved out of the directory; 'all processed, not yet marked' is the real done answer with Done=false; a vector is "
         "replayed by giving every shard's recorded answer to the real Ingestor.FetchAsyncSearchResult (a pure function of the answers); other shards "
         "are abstract in the model (k processed of n, done) on the strength of the store-level invariants; a store that is down fails the whole fetch (no claim)",
-        "request ids that are prefixes of each other (glob <id>*.qpr) are not exercised; several requests share a directory only in the queue stage",
+        "request ids that are prefixes of each other (glob <id>*.qpr) are not exercised; several requests share a directory in the queue stage and the loader stage",
         "queue stage: the other requests of the searcher are abstract in the model (not started / queued / running / finished; by the store-level invariants each of them is "
         "persisted and comes back queued after a crash); on the real searcher they are requests with the same query, all of them judged; a slot-holder is held before its last "
         "captured fraction, so crash states in which a slot is free while a request is still queued (a transient of the scheduler) are not held; the crash is a byte copy of "
         "the directory while every goroutine of the searcher is blocked, the abandoned searcher is drained afterwards",
+        "loader stage: the atomic writes are single steps in AsyncSearchLoader.tla (their inside is AsyncSearch.tla's); the crash image is built from the real files of the "
+        "completed requests (the .info as StartSearch wrote it - or, when the request finished before it could be read, the final .info with the Done flag cleared - and "
+        "copies of the partial results the image holds); only the lists some time range selects on the job's store are replayed (stores with one fraction replay none); "
+        "the second parameter set is another aggregation (count / unique by group) over the same query",
         "start stage: a replica that refuses StartAsyncSearch returns a gRPC error (Unavailable, Internal, DeadlineExceeded, ResourceExhausted, Unknown, Aborted in turn) and has "
         "never heard of the search afterwards (NotFound); the replicas of a shard are scripted fronts of the one real store of that shard; a shard without replicas is not exercised",
     ]
